@@ -10,20 +10,39 @@ package rfc3962
 //@   requires tagof(e) == typeid("crypto.Aes128CtsHmacSha96") || tagof(e) == typeid("crypto.Aes256CtsHmacSha96")
 //@   ensures err == nil <==> et_encok(tagof(e), len(key), len(data))
 //@   ensures err == nil ==> len(ct) == et_ctlen(tagof(e), len(data))
+//@   ensures err == nil ==> bytes(ct) == et_E(tagof(e), bytes(key), bytes(data))
 //@ func crypto/rfc3962.DecryptData(key, data, e) (pt, err)
 //@   pure
 //@   trusted_frame returned slices are not tracked as fresh; in-place append into spare capacity cannot be excluded
 //@   requires tagof(e) == typeid("crypto.Aes128CtsHmacSha96") || tagof(e) == typeid("crypto.Aes256CtsHmacSha96")
 //@   ensures err == nil <==> et_decok(tagof(e), len(key), len(data))
 //@   ensures err == nil ==> len(pt) == len(data)
+//@   ensures err == nil ==> bytes(pt) == et_D(tagof(e), bytes(key), bytes(data))
 //@   ensures err != nil ==> len(pt) == 0
+// RFC 3961 5.3 / RFC 3962 (properties C05, C06). Decryption accepts a ciphertext exactly when it is at least a
+// confounder plus a MAC long and its trailing MAC equals HMAC(Ki, D(Ke, body)) truncated; the plaintext is then the
+// decrypted body without the confounder. Encryption produces E(Ke, conf | msg) | HMAC(Ki, conf | msg) with the
+// confounder just drawn from crypto/rand (ghost lastRandom).
+//@ define dec_body(t, key, usage, c) := et_D(t, et_dk(t, key, usage_const(usage, 0xAA)), seqtrunc(c, len(c) - et_hmacbits(t) / 8))
+//@ define dec_ok_3961(t, key, usage, c) := len(c) >= et_confounder(t) + et_hmacbits(t) / 8
+//@     && seqsub(c, len(c) - et_hmacbits(t) / 8, len(c)) == simplified_cksum(t, key, usage_const(usage, 0x55), dec_body(t, key, usage, c))
 //@ func crypto/rfc3962.DecryptMessage(key, ciphertext, usage, e) (pt, err)
 //@   pure
 //@   trusted_frame returned slices are not tracked as fresh; in-place append into spare capacity cannot be excluded
+//@   requires tagof(e) == typeid("crypto.Aes128CtsHmacSha96") || tagof(e) == typeid("crypto.Aes256CtsHmacSha96")
 //@   ensures err != nil ==> len(pt) == 0
+//@   ensures err == nil ==> dec_ok_3961(tagof(e), bytes(key), usage, bytes(ciphertext))
+//@   ensures err == nil ==> bytes(pt) == seqsub(dec_body(tagof(e), bytes(key), usage, bytes(ciphertext)), et_confounder(tagof(e)), len(ciphertext) - et_hmacbits(tagof(e)) / 8)
 //@ func crypto/rfc3962.EncryptMessage(key, message, usage, e) (iv, ct, err)
 //@   pure
 //@   trusted_frame returned slices are not tracked as fresh; in-place append into spare capacity cannot be excluded
+//@   requires tagof(e) == typeid("crypto.Aes128CtsHmacSha96") || tagof(e) == typeid("crypto.Aes256CtsHmacSha96")
+//@   ensures err == nil ==> len(lastRandom) == et_confounder(tagof(e)) && bytes(ct) == enc_3961(tagof(e), bytes(key), usage, seqcat(lastRandom, bytes(message)))
+//@ func crypto/rfc3961.VerifyIntegrity(key, ct, pt, usage, e) (ok)
+//@   pure
+//@   requires et_known(tagof(e))
+//@   trusted_frame returned slices are not tracked as fresh; in-place append into spare capacity cannot be excluded
+//@   ensures ok ==> len(ct) >= et_hmacbits(tagof(e)) / 8 && seqsub(bytes(ct), len(ct) - et_hmacbits(tagof(e)) / 8, len(ct)) == simplified_cksum(tagof(e), bytes(key), usage_const(usage, 0x55), bytes(pt))
 // RFC 3962 4 (property C08): key = DK(random-to-key(PBKDF2-HMAC-SHA1(secret, salt, iterations, keylength)), "kerberos"),
 // the iteration count being the 4-octet big-endian parameter with 0 meaning 2^32.
 //@ func crypto/rfc3962.S2KparamsToItertions(s2kparams) (r, err)
